@@ -19,7 +19,7 @@ Open Scope Q_scope.
 
 Definition Qltb (a b : Q) : bool := negb (Qle_bool b a).
 
-Inductive exn := ZeroDiv | ValueErr | NotFlying | AlreadyFlying | UserErr | Internal.
+Inductive exn := ZeroDiv | ValueErr | NotFlying | AlreadyFlying | UserErr | Internal | NotConnected.
 
 Record env := mkEnv {
   e_vel : Q;            (* MotionCommander.VELOCITY *)
@@ -95,18 +95,20 @@ Record st := mkSt {
   thr : option spst;        (* MotionCommander._thread (Some = the thread exists and is alive) *)
   log : list ev;            (* calls received by the recording commander / param, newest first *)
   sched : list bool;        (* remaining schedule *)
-  used : Z                  (* choice points passed *)
+  used : Z;                 (* choice points passed *)
+  conn : bool               (* what cf.is_connected() returns now (wave 11) *)
 }.
 
-Definition set_now (s : st) (t : Q) : st := mkSt t (flying s) (thr s) (log s) (sched s) (used s).
-Definition set_flying (s : st) (b : bool) : st := mkSt (now s) b (thr s) (log s) (sched s) (used s).
-Definition set_thr (s : st) (o : option spst) (l : list ev) : st := mkSt (now s) (flying s) o l (sched s) (used s).
-Definition add_log (s : st) (e : ev) : st := mkSt (now s) (flying s) (thr s) (e :: log s) (sched s) (used s).
+Definition set_now (s : st) (t : Q) : st := mkSt t (flying s) (thr s) (log s) (sched s) (used s) (conn s).
+Definition set_flying (s : st) (b : bool) : st := mkSt (now s) b (thr s) (log s) (sched s) (used s) (conn s).
+Definition set_thr (s : st) (o : option spst) (l : list ev) : st := mkSt (now s) (flying s) o l (sched s) (used s) (conn s).
+Definition set_conn (s : st) (b : bool) : st := mkSt (now s) (flying s) (thr s) (log s) (sched s) (used s) b.
+Definition add_log (s : st) (e : ev) : st := mkSt (now s) (flying s) (thr s) (e :: log s) (sched s) (used s) (conn s).
 
 Definition choose (s : st) : bool * st :=
   match sched s with
-  | [] => (true, mkSt (now s) (flying s) (thr s) (log s) [] (used s + 1)%Z)
-  | b :: r => (b, mkSt (now s) (flying s) (thr s) (log s) r (used s + 1)%Z)
+  | [] => (true, mkSt (now s) (flying s) (thr s) (log s) [] (used s + 1)%Z (conn s))
+  | b :: r => (b, mkSt (now s) (flying s) (thr s) (log s) r (used s + 1)%Z (conn s))
   end.
 
 Definition runnable (p : spst) (t : Q) : bool :=
@@ -213,6 +215,7 @@ Inductive op :=
 | OLand (v : option Q)
 | OTakeOff (h : option Q) (v : option Q)
 | OWait (d : Q)                 (* time.sleep(d) in the user's body *)
+| OLink (b : bool)              (* the link state changes: cf.is_connected() returns b from now on *)
 | ORaise.
 
 Definition qzero : qitem := QVel 0 0 0 0.
@@ -287,6 +290,7 @@ Definition plain_acts (E : env) (defh : Q) (fl : bool) (o : op) : list act * opt
   | OTakeOff h v => takeoff_acts E defh fl h v
   | OLand _ => ([], None)
   | OWait d => ([ASleep d], None)
+  | OLink _ => ([], None)
   | ORaise => ([], Some UserErr)
   end.
 
@@ -317,11 +321,21 @@ Definition exec_op (E : env) (defh : Q) (o : op) (s : st) : st * option exn :=
       (s1, seq_exn r1 cx)
   end.
 
+(* a primitive inside the with-body, with the link state: HEAD consults cf.is_connected() in exactly one place,
+   take_off() (after the 'Already flying' check): 'Crazyflie is not connected'.  land(), __exit__ and every motion
+   primitive do not look at it. *)
+Definition exec_op2 (E : env) (defh : Q) (o : op) (s : st) : st * option exn :=
+  match o with
+  | OLink b => (set_conn s b, None)
+  | OTakeOff _ _ => if negb (flying s) && negb (conn s) then (s, Some NotConnected) else exec_op E defh o s
+  | _ => exec_op E defh o s
+  end.
+
 (* the with-body: stops at the first exception *)
 Fixpoint exec_body (E : env) (defh : Q) (ops : list op) (s : st) : st * option exn :=
   match ops with
   | [] => (s, None)
-  | o :: r => match exec_op E defh o s with
+  | o :: r => match exec_op2 E defh o s with
               | (s', None) => exec_body E defh r s'
               | (s', Some e) => (s', Some e)
               end
@@ -331,7 +345,7 @@ Inductive outcome :=
 | NotEntered (e : exn) (s : st)             (* __enter__ raised: __exit__ is not called *)
 | Exited (x : option exn) (s : st).         (* the with statement was left; x = exception propagating out of it *)
 
-Definition init_st (t0 : Q) (sch : list bool) : st := mkSt t0 false None [] sch 0%Z.
+Definition init_st (t0 : Q) (sch : list bool) : st := mkSt t0 false None [] sch 0%Z true.
 
 (* with MotionCommander(cf, defh) as mc: <ops> *)
 Definition run_mc (E : env) (t0 defh : Q) (ops : list op) (sch : list bool) : outcome :=
@@ -341,6 +355,16 @@ Definition run_mc (E : env) (t0 defh : Q) (ops : list op) (sch : list bool) : ou
       let '(s2, rb) := exec_body E defh ops s1 in
       let '(s3, rl) := exec_op E defh (OLand None) s2 in
       Exited (seq_exn rl rb) s3
+  end.
+
+(* NOT the code: an __exit__ that lands only while cf.is_connected() (used for a refutation only) *)
+Definition run_mc_guarded (E : env) (t0 defh : Q) (ops : list op) (sch : list bool) : outcome :=
+  match exec_op E defh (OTakeOff None None) (init_st t0 sch) with
+  | (s1, Some e) => NotEntered e s1
+  | (s1, None) =>
+      let '(s2, rb) := exec_body E defh ops s1 in
+      if conn s2 then let '(s3, rl) := exec_op E defh (OLand None) s2 in Exited (seq_exn rl rb) s3
+      else Exited rb s2
   end.
 
 Definition out_st (o : outcome) : st := match o with NotEntered _ s => s | Exited _ s => s end.
@@ -358,14 +382,17 @@ Record hst := mkH {
   hx : Q; hy : Q; hz : Q;
   dvel : Q; dheight : Q; dland : Q;          (* _default_velocity, _default_height, _default_landing_height *)
   hinit : Q;                                 (* _init_time *)
-  hlog : list hev
+  hlog : list hev;
+  hconn : bool                               (* cf.is_connected() now (wave 11) *)
 }.
 
-Definition h_set_time (s : hst) (t : Q) := mkH t (hfly s) (hx s) (hy s) (hz s) (dvel s) (dheight s) (dland s) (hinit s) (hlog s).
-Definition h_set_fly (s : hst) (b : bool) := mkH (hnow s) b (hx s) (hy s) (hz s) (dvel s) (dheight s) (dland s) (hinit s) (hlog s).
-Definition h_set_pos (s : hst) (x y z : Q) := mkH (hnow s) (hfly s) x y z (dvel s) (dheight s) (dland s) (hinit s) (hlog s).
-Definition h_add (s : hst) (e : hev) := mkH (hnow s) (hfly s) (hx s) (hy s) (hz s) (dvel s) (dheight s) (dland s) (hinit s) (e :: hlog s).
-Definition h_set_defaults (s : hst) (v h l : Q) := mkH (hnow s) (hfly s) (hx s) (hy s) (hz s) v h l (hinit s) (hlog s).
+Definition h_set_time (s : hst) (t : Q) := mkH t (hfly s) (hx s) (hy s) (hz s) (dvel s) (dheight s) (dland s) (hinit s) (hlog s) (hconn s).
+Definition h_set_fly (s : hst) (b : bool) := mkH (hnow s) b (hx s) (hy s) (hz s) (dvel s) (dheight s) (dland s) (hinit s) (hlog s) (hconn s).
+Definition h_set_pos (s : hst) (x y z : Q) := mkH (hnow s) (hfly s) x y z (dvel s) (dheight s) (dland s) (hinit s) (hlog s) (hconn s).
+Definition h_add (s : hst) (e : hev) := mkH (hnow s) (hfly s) (hx s) (hy s) (hz s) (dvel s) (dheight s) (dland s) (hinit s) (e :: hlog s) (hconn s).
+Definition h_set_defaults (s : hst) (v h l : Q) := mkH (hnow s) (hfly s) (hx s) (hy s) (hz s) v h l (hinit s) (hlog s) (hconn s).
+
+Definition h_set_conn (s : hst) (b : bool) := mkH (hnow s) (hfly s) (hx s) (hy s) (hz s) (dvel s) (dheight s) (dland s) (hinit s) (hlog s) b.
 
 Definition hsleep (d : Q) (s : hst) : hst * option exn :=
   if Qltb d 0 then (s, Some ValueErr) else (h_set_time s (hnow s + d), None).
@@ -379,6 +406,7 @@ Inductive hop :=
 | HSetVel (v : Q) | HSetHeight (h : Q) | HSetLanding (h : Q)
 | HOLand (v lh : option Q)
 | HOTakeOff (h v : option Q)
+| HLink (b : bool)
 | HRaise.
 
 Definition qabs (q : Q) : Q := if Qltb q 0 then - q else q.
@@ -448,7 +476,16 @@ Definition hexec_op (sq : Q -> Q) (o : hop) (s : hst) : hst * option exn :=
   | HSetLanding l => (h_set_defaults s (dvel s) (dheight s) l, None)
   | HOLand v lh => h_land v lh s
   | HOTakeOff h v => h_takeoff h v s
+  | HLink _ => (s, None)
   | HRaise => (s, Some UserErr)
+  end.
+
+(* with the link state: PositionHlCommander reads cf.is_connected() only in take_off(), after 'Already flying' *)
+Definition hexec_op2 (sq : Q -> Q) (o : hop) (s : hst) : hst * option exn :=
+  match o with
+  | HLink b => (h_set_conn s b, None)
+  | HOTakeOff _ _ => if negb (hfly s) && negb (hconn s) then (s, Some NotConnected) else hexec_op sq o s
+  | _ => hexec_op sq o s
   end.
 
 (* body with the position reported after every completed primitive (newest first) *)
@@ -456,7 +493,7 @@ Fixpoint hexec_body (sq : Q -> Q) (ops : list hop) (s : hst) (pos : list (Q * Q 
   : hst * option exn * list (Q * Q * Q) :=
   match ops with
   | [] => (s, None, pos)
-  | o :: r => match hexec_op sq o s with
+  | o :: r => match hexec_op2 sq o s with
               | (s', None) => hexec_body sq r s' ((hx s', hy s', hz s') :: pos)
               | (s', Some e) => (s', Some e, pos)
               end
@@ -468,7 +505,7 @@ Inductive houtcome :=
 
 (* pc = PositionHlCommander(cf, x, y, z, dvel, dheight, controller, dland); [wait]; with pc: <ops> *)
 Definition h_init (t0 x y z v h l : Q) (ctrl : option Z) : hst :=
-  mkH t0 false x y z v h l t0 (match ctrl with Some c => [HParam t0 c] | None => [] end).
+  mkH t0 false x y z v h l t0 (match ctrl with Some c => [HParam t0 c] | None => [] end) true.
 
 Definition run_hl (sq : Q -> Q) (s0 : hst) (ops : list hop) : houtcome :=
   match h_takeoff None None s0 with
@@ -489,7 +526,7 @@ Definition qz (q : Q) : list Z := let r := Qred q in [Qnum r; Zpos (Qden r)].
 Definition exn_code (e : option exn) : Z :=
   match e with
   | None => 0 | Some ZeroDiv => 1 | Some ValueErr => 2 | Some NotFlying => 3
-  | Some AlreadyFlying => 4 | Some UserErr => 5 | Some Internal => 9
+  | Some AlreadyFlying => 4 | Some UserErr => 5 | Some NotConnected => 6 | Some Internal => 9
   end%Z.
 
 Definition ev_enc (gh : bool) (e : ev) : list Z :=
@@ -615,3 +652,33 @@ Definition send_cached (h : list (Z * Z)) : list (Z * Z) :=
 (* what the firmware of each session makes of the packets: None = dropped *)
 Definition fw_receive (h : list (Z * Z)) (pk : list (Z * Z)) : list (option Z) :=
   map (fun x => let '((ver, _), (t, f)) := x in if fw_knows ver t then Some (fw_yaw t f) else None) (combine h pk).
+
+(* ================================================================== the thread-stop handshake under stalling sends (wave 12) *)
+(* _SetPointThread.stop() = put(terminate); join().  At that moment the thread may be stuck inside a send (a stalled link) with
+   setpoint events queued behind it.  `durs` = the time each of the sends it still has to make takes before it reaches the
+   commander (first = the remainder of the send in flight); after the last one the thread sees the terminate event and returns.
+   Time 0 = the moment stop() is called.  join(None) returns when the thread has returned; join(Some T) also after T. *)
+Inductive hs_ev := HsHover (k : nat) | HsStop | HsRelease.
+
+Fixpoint completions (t k : nat) (durs : list nat) : list (nat * nat) :=      (* (time the k-th pending send goes through, k) *)
+  match durs with
+  | [] => []
+  | d :: r => (t + d, k)%nat :: completions (t + d) (S k) r
+  end.
+
+Definition thread_done (durs : list nat) : nat := fold_right Nat.add O durs.
+
+Definition join_returns (bound : option nat) (durs : list nat) : nat :=
+  match bound with None => thread_done durs | Some T => Nat.min T (thread_done durs) end.
+
+(* the call order the commander sees: sends that went through by the time join returned, then stop and the release (land()
+   continues), then the sends the still-living thread completes afterwards *)
+Definition land_trace (bound : option nat) (durs : list nat) : list hs_ev :=
+  let cs := completions O O durs in
+  let tj := join_returns bound durs in
+  map (fun c => HsHover (snd c)) (filter (fun c => Nat.leb (fst c) tj) cs)
+  ++ [HsStop; HsRelease]
+  ++ map (fun c => HsHover (snd c)) (filter (fun c => negb (Nat.leb (fst c) tj)) cs).
+
+Definition thread_alive_after_stop (bound : option nat) (durs : list nat) : bool :=
+  Nat.ltb (join_returns bound durs) (thread_done durs).
